@@ -32,7 +32,7 @@ def _corpus_shard(srcs):
 
 
 def run(tier, seed):
-    run = c01.explore("C16", PROPS, [("core", 0.4), ("window", 0.3), ("project", 0.3)], tier, seed, 900, 40000, ASSUMPTIONS)
+    run = c01.explore("C16", PROPS, [("core", 0.4), ("window", 0.3), ("project", 0.3), ("shared", 0.3)], tier, seed, 900, 40000, ASSUMPTIONS)
     srcs = corpus.sources()
     N = core.NCPU
     res = core.run_shards(_corpus_shard, [dict(srcs=srcs[i::N]) for i in range(N)])
